@@ -297,4 +297,47 @@ def r18_6_rejection(repo: Repo, rep: Report):
     rep.check("R18.6", ok, m, tp, "ParseTimeout.parse -> parse_time(values, default_unit='ms')", "timeouts without a unit must be milliseconds")
 
 
-RULES = [r18_1_source_order, r18_2_lookup, r18_3_layer_sources, r18_4_scoping, r18_5_inverse_pairs, r18_6_rejection]
+def _forwarded_values_ok(repo: Repo, m, fn, expr, depth=0):
+    """(ok, description): does `expr` (the ** argument of with_overrides) forward every parsed option unfiltered, or
+    filtered only by `is not None`?"""
+    from hsa.origin import origin
+
+    e = origin(m, fn, expr)
+    t = src(e)
+    if isinstance(e, ast.Call) and call_name(e) == "vars" and len(e.args) == 1:
+        return True, t
+    if isinstance(e, ast.DictComp):
+        bad = [src(c) for g in e.generators for c in g.ifs if not (isinstance(c, ast.Compare) and len(c.ops) == 1 and isinstance(c.ops[0], ast.IsNot) and isinstance(c.comparators[0], ast.Constant) and c.comparators[0].value is None)]
+        return not bad, f"{t[:90]} (filters other than `is not None`: {bad})" if bad else t[:90]
+    if isinstance(e, ast.Call) and depth < 2:
+        # a helper of the package: look at what it returns
+        nm = call_name(e)
+        for mod in repo.modules.values():
+            h = mod.defs.get(nm)
+            if isinstance(h, (ast.FunctionDef, ast.AsyncFunctionDef)):
+                rets = [r for r in body_walk(h) if isinstance(r, ast.Return) and r.value is not None]
+                res = [_forwarded_values_ok(repo, mod, h, r.value, depth + 1) for r in rets]
+                return bool(res) and all(o for o, _ in res), f"{nm}() returns " + "; ".join(d for _, d in res)
+    if isinstance(e, (ast.Name, ast.Attribute, ast.Subscript, ast.Dict)):
+        return True, t[:90]  # a dictionary built elsewhere (toml layer, explicit keywords)
+    return True, t[:90]
+
+
+def r18_7_override_forwarding(repo: Repo, rep: Report):
+    rep.rule("R18.7", "every layer forwards the options it was given unfiltered (or filtered by `is not None` only): an explicit falsy value must override a lower layer")
+    n = 0
+    for m in repo.modules.values():
+        for q, fn in m.defs.items():
+            if not isinstance(fn, (ast.FunctionDef, ast.AsyncFunctionDef)):
+                continue
+            for c in body_walk(fn):
+                if isinstance(c, ast.Call) and last_attr(c) == "with_overrides":
+                    for k in c.keywords:
+                        if k.arg is None:
+                            ok, desc = _forwarded_values_ok(repo, m, fn, k.value)
+                            n += 1
+                            rep.check("R18.7", ok, m, c, f"{m.name}.{q}: with_overrides(.., **{desc})", "options with falsy values (0, empty set from `--panic-error-codes *`, False, '') given in this layer are dropped and a lower-precedence value wins")
+    rep.floor("R18.7", 3, "with_overrides(**...) call sites")
+
+
+RULES = [r18_1_source_order, r18_2_lookup, r18_3_layer_sources, r18_4_scoping, r18_5_inverse_pairs, r18_6_rejection, r18_7_override_forwarding]
